@@ -778,16 +778,19 @@ func (p *Parser) parseSelectStatement() (ast.Statement, error) {
 
 			// Create join clause with proper tree relationships
 			// For SQL: FROM A JOIN B JOIN C (equivalent to (A JOIN B) JOIN C)
+			// In FROM a, b JOIN c the join binds tighter than the comma: its left side is b,
+			// the last item of the list.
+			joinBase := tables[len(tables)-1]
 			var leftTable ast.TableReference
 			if len(joins) == 0 {
 				// First join: A JOIN B
-				leftTable = tableRef
+				leftTable = joinBase
 			} else {
 				// Subsequent joins: (previous result) JOIN C
 				// We represent this by using a synthetic table reference that indicates
 				// the left side is the result of previous joins
 				leftTable = ast.TableReference{
-					Name:  fmt.Sprintf("(%s_with_%d_joins)", tableRef.Name, len(joins)),
+					Name:  fmt.Sprintf("(%s_with_%d_joins)", joinBase.Name, len(joins)),
 					Alias: "",
 				}
 			}
